@@ -38,8 +38,6 @@ def priority_model(seg, distname, ordname):
     """(value, tolerance) of the ordering score from its definition (long double), or None when ill-conditioned."""
     if ordname == 'segment':
         return models.endpoint_line_cost(seg, 'rss')
-    if distname == 'perpendicular' and np.asarray(seg).dtype.kind in 'iu' and float(np.max(np.abs(seg))) > 1e8:
-        return None                                          # F-2: int64 products wrap inside the primitive
     g = geo_dist(seg, distname)
     if not np.all(np.isfinite(g)):
         return None
@@ -110,15 +108,12 @@ def cases(rng, tier, shard, nshards):
         c = {'points': pts, 'family': meta['family'], 'layout': gen.pick_layout(rng, pts),
              'distance': pick(rng, DISTANCES), 'order': pick(rng, ORDERS)}
         if rng.random() < 0.04:
-            # int64 magnitudes 1e9..1e10; shortest distance only (the perpendicular distance forms int64 products that
-            # wrap at this magnitude: known finding F-2 of C20, outside this property's check)
-            c.update({'points': gen.large_int_curve(rng, nmax=40), 'family': 'large-int64', 'layout': 'i64', 'distance': 'shortest'})
+            # int64 magnitudes 1e9..1e10: products of two coordinate differences do not fit int64
+            c.update({'points': gen.large_int_curve(rng, nmax=40), 'family': 'large-int64', 'layout': 'i64'})
         if rng.random() < 0.35 and len(pts) <= 40:
             # history: a second chain on the SAME array under another distance / ordering (state kept between
             # calls must not leak from one configuration into the next)
             c['follow'] = {'distance': pick(rng, DISTANCES), 'order': pick(rng, ORDERS)}
-            if c['family'] == 'large-int64':
-                c['follow']['distance'] = 'shortest'
         yield c
 
 
